@@ -275,6 +275,47 @@ pub fn judge_rejected(ctx: &Ctx, l: &mut Local, args: &[String], tag: &str) {
     let _ = std::fs::remove_dir_all(&dir);
 }
 
+/// rejected parameter files (the -i route): (description, file content or None = file missing)
+pub fn rejected_files() -> Vec<(String, Option<String>)> {
+    let good = serde_json::to_value(ParamsConfig { params: Params::new(Method::Isna), location: Site::new(21.4, 39.8, 0.0, 3.0).loc(), date_range: Some(DateRange::from(ymd(2024, 1, 1)..=ymd(2024, 1, 3))) }).unwrap();
+    let mut v: Vec<(String, Option<String>)> = vec![("missing file".into(), None), ("not JSON".into(), Some("this is not json".into())), ("empty file".into(), Some(String::new())), ("truncated JSON".into(), Some(good.to_string()[..40].to_string()))];
+    for (path, val) in [
+        (vec!["location", "coords", "latitude"], json!(90.5)),
+        (vec!["location", "coords", "latitude"], json!(-91)),
+        (vec!["location", "coords", "longitude"], json!(180.5)),
+        (vec!["location", "coords", "elevation"], json!(9000)),
+        (vec!["location", "gmt"], json!(12.5)),
+        (vec!["location", "gmt"], json!("3")),
+        (vec!["location", "coords", "latitude"], Value::Null),
+    ] {
+        let mut d = good.clone();
+        let mut cur = &mut d;
+        for p in &path {
+            cur = cur.get_mut(*p).unwrap();
+        }
+        *cur = val.clone();
+        v.push((format!("{} = {}", path.join("."), val), Some(d.to_string())));
+    }
+    // a malformed date inside the range
+    v.push(("date_range with 2024-02-30".into(), Some(good.to_string().replace("2024-01-03", "2024-02-30"))));
+    v
+}
+
+pub fn judge_rejected_file(ctx: &Ctx, l: &mut Local, what: &str, content: &Option<String>, tag: &str) {
+    let dir = fresh_dir(tag);
+    if let Some(c) = content {
+        std::fs::write(dir.join("in.json"), c).unwrap();
+    }
+    let r = run_cli(&dir, &["-i".to_string(), "in.json".to_string(), "-o".to_string(), "o.json".to_string()]);
+    l.evals += 1;
+    l.nontrivial += 1;
+    let out_created = dir.join("o.json").exists();
+    if r.code == Some(0) || r.stderr.trim().is_empty() || out_created {
+        ctx.violation("invalid_input_rejected_before_computing", &format!("-i {}", what), json!({"kind": "rejected_file", "what": what, "content": content}), json!({"exit": r.code, "stderr": r.stderr.chars().take(300).collect::<String>(), "output_file_created": out_created}));
+    }
+    let _ = std::fs::remove_dir_all(&dir);
+}
+
 pub fn rejected_lines() -> Vec<Vec<String>> {
     let base = |g: &str, l: &str, t: &str, e: &str, s: &str, n: &str| -> Vec<String> { vec![format!("--gmt={}", g), format!("--latitude={}", l), format!("--longitude={}", t), format!("--elevation={}", e), format!("--start-date={}", s), format!("--end-date={}", n)] };
     let ok = ("3", "21.4", "39.8", "0", "2024-01-01", "2024-01-03");
@@ -311,11 +352,11 @@ pub fn explore(ctx: &Ctx) {
         eprintln!("MACHINERY: CLI binary {} missing", cli());
         std::process::exit(2);
     }
-    let lats: Vec<f64> = if quick { vec![-33.9, 21.4233, 90.0] } else { vec![-90.0, -33.9, 0.0, 21.4233, 58.3, 90.0] };
+    let lats: Vec<f64> = if quick { vec![-33.9, 21.4233, 58.3, 90.0] } else { vec![-90.0, -33.9, 0.0, 21.4233, 58.3, 90.0] };
     let lons: Vec<f64> = if quick { vec![-180.0, -77.2086, 39.8233] } else { vec![-180.0, -77.2086, 39.8233, 180.0] };
     let elevs: Vec<Option<f64>> = if quick { vec![None, Some(8848.0)] } else { vec![Some(-420.0), None, Some(8848.0)] };
     let gmts: Vec<f64> = if quick { vec![-12.0, 5.5, 12.0] } else { vec![-12.0, -5.0, 5.5, 12.0] };
-    let ranges: Vec<(NaiveDate, i64)> = if quick { vec![(ymd(2024, 2, 28), 3), (ymd(2023, 12, 31), 1), (ymd(2023, 6, 1), 400)] } else { vec![(ymd(2024, 2, 28), 3), (ymd(2023, 12, 31), 1), (ymd(2023, 12, 31), 2), (ymd(2023, 12, 15), 31), (ymd(2023, 6, 1), 400), (ymd(2024, 3, 5), 0)] };
+    let ranges: Vec<(NaiveDate, i64)> = if quick { vec![(ymd(2024, 2, 28), 3), (ymd(2023, 12, 31), 1), (ymd(2023, 6, 1), 400), (ymd(2023, 6, 20), 3)] } else { vec![(ymd(2024, 2, 28), 3), (ymd(2023, 12, 31), 1), (ymd(2023, 12, 31), 2), (ymd(2023, 12, 15), 31), (ymd(2023, 6, 1), 400), (ymd(2024, 3, 5), 0)] };
     let mut methods: Vec<Option<String>> = METHOD_NAMES.iter().map(|m| Some(m.to_string())).collect();
     methods.push(None);
     let mut cfgs = vec![];
@@ -326,7 +367,7 @@ pub fn explore(ctx: &Ctx) {
                 for e in &elevs {
                     for &g in &gmts {
                         for &(s, days) in &ranges {
-                            if days > 31 && lat.abs() > 58.3 {
+                            if days > 31 && (lat.abs() > 58.3 || (quick && lat.abs() > 45.0)) {
                                 continue;
                             }
                             n += 1;
@@ -354,12 +395,21 @@ pub fn explore(ctx: &Ctx) {
     par_jobs(ctx, &idx, |i, l| {
         judge_rejected(ctx, l, &rej[*i], &format!("r{}", i));
     });
+    let rf = rejected_files();
+    ctx.alphabet("rejected_parameter_files", json!(rf.iter().map(|x| x.0.clone()).collect::<Vec<_>>()));
+    let idx: Vec<usize> = (0..rf.len()).collect();
+    par_jobs(ctx, &idx, |i, l| {
+        judge_rejected_file(ctx, l, &rf[*i].0, &rf[*i].1, &format!("f{}", i));
+    });
     let _ = std::fs::remove_dir_all(format!("{}/target/tmp/c19", verif_dir()));
 }
 
 pub fn replay(ctx: &Ctx, _clause: &str, case: &Value) {
     let mut l = Local::default();
-    if case["kind"] == "rejected" {
+    if case["kind"] == "rejected_file" {
+        let content: Option<String> = serde_json::from_value(case["content"].clone()).unwrap_or(None);
+        judge_rejected_file(ctx, &mut l, case["what"].as_str().unwrap_or(""), &content, "replay");
+    } else if case["kind"] == "rejected" {
         let args: Vec<String> = serde_json::from_value(case["args"].clone()).unwrap();
         judge_rejected(ctx, &mut l, &args, "replay");
     } else {
